@@ -206,6 +206,45 @@ def m_default(I, st, args, dest_ty, *r):
     return TopV(dest_ty, tag=("default",))
 
 
+def m_unknown(I, st, args, dest_ty, fn=None, b=None, *r):
+    """a callee without MIR and without a model: result unknown, and whatever it can reach through a `&mut`
+    argument is unknown afterwards (the argument types are read from the call site)"""
+    d = _deps(I, st, args)
+    try:
+        ops = M.term(fn["blocks"][b])[2] if isinstance(fn, dict) and b is not None else []
+    except (IndexError, KeyError, TypeError):
+        ops = []
+    for a, op in zip(args, ops):
+        ty = ""
+        if op[0] in ("copy", "move"):
+            ty = op[1].get("ty") or fn["locals"][op[1]["l"]]["ty"] or ""
+        if a.kind == "ref" and ty.startswith("&mut"):
+            try:
+                cur = I.read_loc(st, a.loc)
+                hv = I.havoc_value(cur, d)
+                name = ((r[1] if len(r) > 1 and isinstance(r[1], dict) else {}) or {}).get("def") or ""
+                if re.search(r"(Preprocessor|Interpreter|DataParser|PrintParser|Parser)::parse$", name):
+                    hv = _free_containers(hv)
+                I.write_loc(st, a.loc, hv)
+            except Unsupported:
+                pass
+    if M.int_type(dest_ty):
+        return IntV.top(dest_ty, d)
+    if dest_ty == "()":
+        return UNIT
+    return TopV(dest_ty, d)
+
+
+def _free_containers(v):
+    """output arguments of a generated parser: the containers it fills can have any length (stated assumption: the
+    grammars accept the empty program and arbitrarily long ones), so their lengths are free inputs of the analysis"""
+    if v.kind == "agg":
+        return AggV(v.name, [_free_containers(x) for x in v.fields])
+    if v.kind == "top" and re.search(r"\bVec<|\bHashMap<|\bHashSet<|\bString\b", str(v.ty)):
+        return TopV(v.ty, v.d, tag=("fresh", "parser-output"))
+    return v
+
+
 def m_top(I, st, args, dest_ty, *r):
     d = _deps(I, st, args)
     if M.int_type(dest_ty):
@@ -257,7 +296,7 @@ def m_len(I, st, args, dest_ty, *r):
         return IntV.top("usize", d, lo, hi, exact=True)
     if v.kind == "top" and v.tag and v.tag[0] == "pushed":
         # something was pushed on this path: at least one element
-        return IntV.top("usize", d, 1, ISIZE_MAX, exact=False)
+        return IntV.top("usize", d, 1, ISIZE_MAX, exact=bool(len(v.tag) > 1 and v.tag[1]))
     # every length is attainable only for a container that is an unconstrained input of the analysed unit
     # (fresh value, input text); the length of a container produced by a callee or modified on the way is unknown
     free = v.kind == "top" and v.tag is not None and v.tag[0] in ("fresh", "input", "vec", "map")
@@ -647,7 +686,10 @@ def m_mutate_first(I, st, args, dest_ty, *r):
             cur = I.read_loc(st, a.loc)
             name = (r[3].get("def") or "") if len(r) > 3 and isinstance(r[3], dict) else ""
             grows = name.endswith("::push") or name.endswith("::insert") or name.endswith("::push_str")
-            I.write_loc(st, a.loc, TopV(getattr(cur, "ty", "?"), d | cur.deps(), tag=("pushed",) if grows else None))
+            # one push onto a vector of arbitrary length: every length >= 1 is attainable (exact); after that, or for
+            # containers whose length an insert need not change, only the lower bound is known
+            free_before = cur.kind == "top" and cur.tag is not None and cur.tag[0] in ("fresh", "input", "vec") and name.endswith("::push")
+            I.write_loc(st, a.loc, TopV(getattr(cur, "ty", "?"), d | cur.deps(), tag=("pushed", free_before) if grows else None))
         except Unsupported:
             pass
     if M.int_type(dest_ty):
@@ -725,7 +767,7 @@ MODELS = [(re.compile(p), f) for p, f in [
     (r"Stdin::read_line$|fs::read_to_string$|Write>::flush$|Regex::new$", m_result_top),
     (r"Box::<T>::new$", m_box_new),
     (r"ops::Deref>::deref$|String::as_bytes$|<impl str>::bytes$|<impl str>::chars$|<impl \[T\]>::iter$|<impl str>::trim$", m_identity),
-    (r".", m_top),
+    (r".", m_unknown),
 ]]
 
 
